@@ -608,6 +608,250 @@ def read_all(d, how="dump"):
     return text, rb
 
 
+# ------------------------------------------------------------------ faults of caller-supplied objects (SIZE_STRESS part 5)
+# Model actions FaultDump / FaultBuild of Deb822ValueHist: the object the CALLER hands in fails at one point;
+# the caller's fault comes out and nothing else happens -- every paragraph, every later dump is what it was.
+
+class _Fault(Exception):
+    """a private exception class of the caller"""
+
+
+def _fault_exc(name):
+    import errno
+    return {"enospc": lambda: OSError(errno.ENOSPC, "No space left on device"),
+            "epipe": lambda: BrokenPipeError(errno.EPIPE, "Broken pipe"),
+            "eio": lambda: OSError(errno.EIO, "Input/output error"),
+            "closed": lambda: ValueError("I/O operation on closed file."),
+            "private": _Fault, "keyerror": lambda: KeyError("write"),
+            "runtime": lambda: RuntimeError("device went away"), "short": lambda: None}[name]()
+
+
+class _CapMixin:
+    """a file object with room for `cap` units (bytes / characters): the write() that does not fit stores what
+    fits and fails -- with the exception `exc`, or (exc None) by returning the SHORT count.  The position is given
+    in units of text, not in calls: however the library slices its writes, the fault is met."""
+
+    def _cap_init(self, cap, exc):
+        self.cap, self.exc, self.hit, self.size, self.calls = cap, exc, False, 0, 0
+
+    def write(self, data):
+        self.calls += 1
+        if not self.hit and self.size + len(data) > self.cap:
+            self.hit = True
+            fit = data[:self.cap - self.size]
+            self._store(fit)
+            self.size += len(fit)
+            if self.exc is None:
+                return len(fit)
+            raise self.exc
+        self._store(data)
+        self.size += len(data)
+        return len(data)
+
+
+class _CapDuck(_CapMixin):
+    """nothing but write()"""
+
+    def __init__(self, cap, exc):
+        self._cap_init(cap, exc)
+        self.buf = []
+
+    def _store(self, data):
+        self.buf.append(data)
+
+
+class _CapBytesIO(_CapMixin, io.BytesIO):
+    def __init__(self, cap, exc):
+        io.BytesIO.__init__(self)
+        self._cap_init(cap, exc)
+
+    def _store(self, data):
+        io.BytesIO.write(self, data)
+
+
+class _CapStringIO(_CapMixin, io.StringIO):
+    def __init__(self, cap, exc):
+        io.StringIO.__init__(self)
+        self._cap_init(cap, exc)
+
+    def _store(self, data):
+        io.StringIO.write(self, data)
+
+
+# (name, "cap" -- a capacity-limited twin of a good file object -- or "nat" -- an object that fails by its
+#  nature at the first write --, binary / text, exception, call)
+FAULT_KINDS = (
+    ("io.BytesIO on a full device", "cap", "b", "enospc", "d.dump(fd)"),
+    ("io.StringIO without text_mode", "nat", "t", "TypeError", "d.dump(fd)"),
+    ("text writer, closed meanwhile", "cap", "t", "closed", "d.dump(fd, text_mode=True)"),
+    ("write()-only object, private exception", "cap", "b", "private", "d.dump(fd, 'utf-8', False)"),
+    ("io.StringIO on a full device", "cap", "t", "enospc", "d.dump(fd, None, True)"),
+    ("/dev/full, unbuffered", "nat", "b", "ENOSPC", "d.dump(fd)"),
+    ("write()-only object, short write", "cap", "b", "short", "d.dump(fd=fd)"),
+    ("pipe whose reader went away", "cap", "b", "epipe", "d.dump(fd, encoding='utf-8')"),
+    ("real text file without text_mode", "nat", "t", "TypeError", "d.dump(fd)"),
+    ("write()-only text object, KeyError", "cap", "t", "keyerror", "d.dump(fd, text_mode=True)"),
+    ("io.BytesIO with text_mode=True", "nat", "b", "TypeError", "d.dump(fd, text_mode=True)"),
+    ("io.BytesIO, EIO", "cap", "b", "eio", "d.dump(fd=fd, encoding='utf-8', text_mode=False)"),
+    ("real file closed before the call", "nat", "b", "ValueError", "d.dump(fd)"),
+    ("io.StringIO, short write", "cap", "t", "short", "d.dump(fd, text_mode=True)"),
+    ("real file opened for reading", "nat", "b", "UnsupportedOperation", "d.dump(fd)"),
+    ("write()-only object, RuntimeError", "cap", "b", "runtime", "d.dump(fd)"),
+    ("encoding='ascii' over a non-ASCII field", "nat", "b", "UnicodeEncodeError", "d.dump(fd, encoding='ascii')"),
+)
+FAULT_STATS = {}                                  # kind -> number of faulted dumps (evidence only)
+
+
+def _entry_units(k, v, binary):
+    """size of one dumped field -- used ONLY to place the fault, never for a verdict"""
+    v = v if isinstance(v, str) else ""
+    n = (len(k.encode("utf-8")) + len(v.encode("utf-8"))) if binary else (len(k) + len(v))
+    return n + (2 if (not v or v[0] == "\n") else 3)
+
+
+def fault_dump(d, items, j, sel):
+    """d.dump(fd) with a file object that fails while field j (1-based) of `items` is written (objects that fail
+    by their nature: at the first write).  Returns (outcome, description): "fault" -- the fault of the caller's
+    object came out as that object produced it (its exception instance; None for a short count) --, "swallowed"
+    -- the object failed and the call returned as if nothing had happened --, "EXC:<type>" -- something else came
+    out --, "not-met" -- the library never wrote that far (no verdict)."""
+    import errno
+    import tempfile
+    name, how, mode, excname, call = FAULT_KINDS[sel % len(FAULT_KINDS)]
+    if excname == "UnicodeEncodeError" and all(isinstance(v, str) and (k + v).isascii() for k, v in items):
+        name, how, mode, excname, call = FAULT_KINDS[0]
+    if name.startswith("/dev/full") and not os.path.exists("/dev/full"):
+        name, how, mode, excname, call = FAULT_KINDS[0]
+    FAULT_STATS[name] = FAULT_STATS.get(name, 0) + 1
+    closers = []
+    exc = None
+    if how == "cap":
+        binary = mode == "b"
+        j = max(1, min(j, len(items)))
+        sizes = [_entry_units(k, v, binary) for k, v in items]
+        inside = (0, 1, sizes[j - 1] // 2, sizes[j - 1] - 1)[(sel // len(FAULT_KINDS)) % 4]
+        cap = sum(sizes[:j - 1]) + max(0, min(inside, sizes[j - 1] - 1))
+        exc = _fault_exc(excname)
+        if name.startswith("io.BytesIO"):
+            fd = _CapBytesIO(cap, exc)
+        elif name.startswith("io.StringIO"):
+            fd = _CapStringIO(cap, exc)
+        else:
+            fd = _CapDuck(cap, exc)
+        desc = "%s [fd = %s, failing after %d %s, i.e. inside field %d of %d]" % (call, name, cap, "bytes" if binary else "characters", j, len(items))
+    else:
+        if name.startswith("io.StringIO"):
+            fd = io.StringIO()
+        elif name.startswith("io.BytesIO") or excname == "UnicodeEncodeError":
+            fd = io.BytesIO()
+        elif name.startswith("/dev/full"):
+            fd = open("/dev/full", "wb", buffering=0)
+            closers.append(fd)
+        elif name.startswith("real text file"):
+            fd = tempfile.TemporaryFile(mode="w", encoding="utf-8", dir=WORKDIR[0])
+            closers.append(fd)
+        elif name.startswith("real file closed"):
+            fd = tempfile.TemporaryFile(mode="w+b", dir=WORKDIR[0])
+            fd.close()
+        else:
+            keep = tempfile.NamedTemporaryFile(mode="w+b", dir=WORKDIR[0])
+            fd = open(keep.name, "rb")
+            closers += [fd, keep]
+        desc = "%s [fd = %s]" % (call, name)
+    try:
+        if call == "d.dump(fd)":
+            ret = d.dump(fd)
+        elif call == "d.dump(fd=fd)":
+            ret = d.dump(fd=fd)
+        elif call == "d.dump(fd, text_mode=True)":
+            ret = d.dump(fd, text_mode=True)
+        elif call == "d.dump(fd, None, True)":
+            ret = d.dump(fd, None, True)
+        elif call == "d.dump(fd, 'utf-8', False)":
+            ret = d.dump(fd, "utf-8", False)
+        elif call == "d.dump(fd, encoding='utf-8')":
+            ret = d.dump(fd, encoding="utf-8")
+        elif call == "d.dump(fd, encoding='ascii')":
+            ret = d.dump(fd, encoding="ascii")
+        else:
+            ret = d.dump(fd=fd, encoding="utf-8", text_mode=False)
+        if how == "cap" and not fd.hit:
+            out = "not-met"
+        elif how == "cap" and exc is None and ret is None:
+            out = "fault"                                            # the short count is all a short write gives
+        else:
+            out = "swallowed"
+    except Exception as e:                                           # noqa: BLE001
+        if how == "cap":
+            out = "fault" if e is exc else "EXC:" + type(e).__name__
+        elif excname == "ENOSPC":
+            out = "fault" if (type(e) is OSError and e.errno == errno.ENOSPC) else "EXC:" + type(e).__name__
+        else:
+            out = "fault" if type(e).__name__ == excname else "EXC:" + type(e).__name__
+    finally:
+        for c in closers:
+            try:
+                c.close()
+            except Exception:                                        # noqa: BLE001
+                pass
+    return out, desc
+
+
+FAULT_MAPPINGS = ("Mapping whose __getitem__ raises", "Mapping whose iteration raises", "Mapping with lazy items() that raises",
+                  "dict subclass whose items() raises")
+
+
+def fault_build(clsname, pairs, k, sel):
+    """Cls(M) with a caller-supplied mapping M over `pairs` that fails at its k-th item (1-based).
+    Returns (outcome, description): "fault" -- M's exception instance came out --, "built" -- an object was
+    built all the same --, "EXC:<type>"."""
+    import collections.abc
+    pairs = [tuple(kv) for kv in pairs]
+    k = max(1, min(k, len(pairs)))
+    exc = _fault_exc(("private", "keyerror", "eio", "runtime", "closed")[(sel // len(FAULT_MAPPINGS)) % 5])
+    kind = FAULT_MAPPINGS[sel % len(FAULT_MAPPINGS)]
+
+    def gen():
+        for i, kv in enumerate(pairs):
+            if i == k - 1:
+                raise exc
+            yield kv
+
+    if kind.startswith("dict subclass"):
+        class FaultyDict(dict):
+            def items(self):
+                return gen()
+        m = FaultyDict(pairs)
+    else:
+        class FaultyMapping(collections.abc.Mapping):
+            def __getitem__(self, key):
+                if kind.endswith("__getitem__ raises") and key == pairs[k - 1][0]:
+                    raise exc
+                return dict(pairs)[key]
+
+            def __iter__(self):
+                if kind.endswith("iteration raises"):
+                    return (kv[0] for kv in gen())
+                return iter([kv[0] for kv in pairs])
+
+            def __len__(self):
+                return len(pairs)
+
+            if kind.startswith("Mapping with lazy items"):
+                def items(self):
+                    return gen()
+        m = FaultyMapping()
+    desc = "%s(M), M = %s (%s) at item %d of %d" % (clsname, kind, type(exc).__name__, k, len(pairs))
+    style = sel // 7
+    try:
+        new, res = None, None
+        cls = get_class(clsname)
+        new = cls(m) if style % 3 == 0 else (cls(sequence=m) if style % 3 == 1 else cls(m, strict=dict(WS_FALSE)))
+        return "built", desc
+    except Exception as e:                                           # noqa: BLE001
+        return ("fault" if e is exc else "EXC:" + type(e).__name__), desc
+
+
 # ------------------------------------------------------------------ sizes (notes/SIZE_STRESS.md)
 # The abstract case (a CASE line / an LTS value) never changes; the concretization gets a size
 # dimension.  Expectations stay those TLC computed for the small value: by the size lemmas of
@@ -1086,6 +1330,9 @@ class HistConc:
         return c
 
 
+FAULT_RATE = 0.11                                 # share of the steps of a walk that are faults of caller-supplied objects
+
+
 def gen_walk(rng, g, n):
     """walk through the LTS biased towards the leak scenarios: repeat an assignment after a
     rejection, give the same value to another key / object / class, follow a multivalued-key
@@ -1097,8 +1344,13 @@ def gen_walk(rng, g, n):
         outs = g.out[s]
         e = None
         r = rng.random()
-        if prev is not None:
-            same_val = [x for x in outs if x["args"][2] == prev["args"][2] and x["op"] == "assign"]
+        faults = [x for x in outs if x["op"] == "faultdump"]
+        if faults and rng.random() < FAULT_RATE:
+            # a dump into a failing file object of the caller, more often than not on the object just assigned to
+            near = [x for x in faults if prev is not None and prev["op"] == "assign" and x["args"][0] == prev["args"][0]]
+            e = rng.choice(near if (near and rng.random() < 0.6) else faults)
+        elif prev is not None and prev["op"] in ("assign", "scratch"):
+            same_val = [x for x in outs if x["op"] == "assign" and x["args"][2] == prev["args"][2]]
             if prev["op"] == "scratch" and r < 0.7:
                 e = rng.choice(same_val)
             elif prev["res"] == "ValueError" and r < 0.3:
@@ -1106,6 +1358,7 @@ def gen_walk(rng, g, n):
             elif r < 0.55:
                 e = rng.choice(same_val)
         if e is None:
+            outs = [x for x in outs if x["op"] != "faultdump"]
             e = rng.choices(outs, weights=[3 if x["from"] != x["to"] else (2 if x["op"] == "scratch" else 1) for x in outs])[0]
         path.append(e)
         prev = e
@@ -1128,7 +1381,11 @@ def gen_walk_build(rng, g, n):
             by.setdefault(x["op"], []).append(x)
         e = None
         r = rng.random()
-        if prev is not None:
+        fops = [op for op in ("faultdump", "faultbuild") if op in by]
+        if fops and rng.random() < FAULT_RATE:
+            # a failing file object handed to dump(fd) (twice as often) / a failing mapping handed to a constructor
+            e = rng.choice(by[rng.choice(fops + ["faultdump"] if "faultdump" in fops else fops)])
+        elif prev is not None and not prev["op"].startswith("fault"):
             same_obj = [x for x in by.get("assign", []) if x["args"][0] == prev["args"][0]] if prev["op"] != "scratch" else []
             if prev["op"] == "fresh" and r < 0.8:
                 bad = [x for x in same_obj if x["res"] != "ok"]
@@ -1377,7 +1634,7 @@ def run_walk(path, init_state, hc, full_every=6):
     n = 0
     for i, e in enumerate(path):
         n += 1
-        if e["op"] in ("fresh", "rebuild"):
+        if e["op"] in ("fresh", "rebuild", "faultdump", "faultbuild"):
             o = e["args"][0]
             k = v = val = None
         else:
@@ -1444,6 +1701,32 @@ def run_walk(path, init_state, hc, full_every=6):
                 ghosts.append((i + 1, "predecessor of the rebuilt paragraph", objs[target], prev_items[target]))
                 objs[target] = new
                 haspad[target] = haspad[q - 1]
+        elif e["op"] == "faultdump":
+            # o.dump(fd), the caller's fd failing while model field k is written (the padding fields come first)
+            target = o - 1
+            kf = e["args"][1]
+            cur = prev_items[target]
+            npad = len(cur) - len(e["from"][target])
+            sel = i * 11 + hc.rsel
+            j = npad + kf if (kf > 1 or npad <= 0) else (1, npad // 2 + 1, npad + 1)[sel % 3]
+            res, desc = fault_dump(objs[target], cur, j, sel)
+            where = "step %d: object %d (%s) %s" % (i + 1, o, hc.classes[target], desc)
+            if res == "not-met":
+                return None, n - 1                                   # (the library never wrote that far: no verdict)
+            if res != e["res"]:
+                return "%s: outcome %s, the model says the fault of the caller's file object comes out and nothing else" % (where, res), n
+        elif e["op"] == "faultbuild":
+            # Cls_o(M), the caller's mapping M over the fields of object q failing at its k-th item
+            target = o - 1
+            _, q, kf = e["args"]
+            content = prev_items[q - 1]
+            npad = len(content) - len(e["from"][q - 1])
+            sel = i * 13 + hc.rsel
+            j = npad + kf if (kf > 1 or npad <= 0) else (1, npad // 2 + 1, npad + 1)[sel % 3]
+            res, desc = fault_build(hc.classes[target], content, j, sel)
+            where = "step %d: object %d := %s holding %s" % (i + 1, o, desc, short(show(content), 160))
+            if res != e["res"]:
+                return "%s: outcome %s, the model says the fault of the caller's mapping comes out and no object is built" % (where, res), n
         elif e["op"] == "scratch":
             clsname = hc.classes[1 + i % 2]
             where = "step %d: %s()[%r] = %s on a throw-away object (multivalued key)" % (i + 1, clsname, hc.key(k), short(val))
@@ -1471,12 +1754,13 @@ def run_walk(path, init_state, hc, full_every=6):
                 if [kv[0] for kv in items] != [kv[0] for kv in exp]:
                     return "%s accepted: field names are now %s, the model says %s" % (where, short(show([kv[0] for kv in items]), 200), short(show([kv[0] for kv in exp]), 200)), n
             elif items != prev_items[q] or [kv[0] for kv in items] != [kv[0] for kv in exp]:
-                what = "the rejected assignment changed the paragraph" if q == target else "live object %d (%s) changed" % (q + 1, hc.classes[q])
+                what = ("the failed call changed the paragraph" if e["op"].startswith("fault") else "the rejected assignment changed the paragraph") if q == target \
+                    else "live object %d (%s) changed" % (q + 1, hc.classes[q])
                 return "%s: %s: %s -> %s" % (where, what, short(show(prev_items[q]), 160), short(show(items), 160)), n
             prev_items[q] = items
         todo = []
-        if target is not None and e["res"] == "ok":
-            todo.append(target)
+        if target is not None and (e["res"] == "ok" or e["op"] == "faultdump"):
+            todo.append(target)                                      # (after a failed dump: the next dump is the whole paragraph)
         if (i + 1) % full_every == 0 or i == len(path) - 1:
             todo = list(range(len(objs)))
         for q in todo:
@@ -1509,6 +1793,10 @@ def _stepshow(e, hc):
         return "object %s replaced by an empty paragraph (%s)" % (e["args"][0], e["args"][1])
     if e["op"] == "rebuild":
         return "object %s := Cls(%s mapping of object %s%s) -> %s" % (e["args"][0], e["args"][2], e["args"][1], " + raw value" if e["args"][3] else "", e["res"])
+    if e["op"] == "faultdump":
+        return "object %s dumped into a file object failing at field %s" % (e["args"][0], e["args"][1])
+    if e["op"] == "faultbuild":
+        return "object %s := Cls(mapping of object %s failing at item %s)" % tuple(e["args"])
     o, k, v = e["args"]
     return "%s %s[%s]=%s -> %s" % (e["op"], o, hc.key(k), short(hc.valmap[tuple(v)], 30), e["res"])
 
@@ -1520,8 +1808,9 @@ def walk_chunk(payload):
     seed, tier, off, nwalks, wlen, edges, init, values = payload[:8]
     kind = payload[8] if len(payload) > 8 else "classic"
     rng = random.Random("C08-%s-walks-%s-%d" % (seed, kind, off))
-    out = {"n": 0, "steps": 0, "violations": [], "ops": {}, "kind": kind, "forms": {}}
+    out = {"n": 0, "steps": 0, "violations": [], "ops": {}, "kind": kind, "forms": {}, "faults": {}}
     WAY_STATS.clear()
+    FAULT_STATS.clear()
     try:
         g = LTS(edges, init)
         for w in range(nwalks):
@@ -1538,6 +1827,7 @@ def walk_chunk(payload):
                 out["violations"].append(({"kind": "walk", "init": init, "path": [strip(e) for e in path], "conc": hc.to_json()},
                                           "history on live objects %s: %s" % (hc.classes, msg)))
         out["forms"] = dict(WAY_STATS)
+        out["faults"] = dict(FAULT_STATS)
     except Exception:                                                # noqa: BLE001
         out["crash"] = traceback.format_exc()
     return out
@@ -2017,6 +2307,7 @@ NEG_CONTROLS = (
      {"UseN": "FALSE", "WithBuild": "TRUE", "TrustSourceClass": "TRUE"}, "HistoryFree"),
     ("ParseLeavesUnchecked", "Deb822ValueHist", "MC_Deb822ValueHist_neg.cfg",
      {"UseN": "FALSE", "WithBuild": "TRUE", "ParseLeavesUnchecked": "TRUE"}, "HistoryFree"),
+    ("DumpMemoPartial", "Deb822ValueHist", "MC_Deb822ValueHist_neg.cfg", {"DumpMemoPartial": "TRUE"}, "HistSound"),
 )
 
 
@@ -2050,6 +2341,7 @@ def run(ctx):
         "bounded: every value up to length %d over 7 code points (x : # space tab CR LF) at the first/middle/last field of A: x / B: x / C: x; longer values and richer neighbour values are sampled (traces, values up to 40 characters)" % maxlen,
         "histories: closed LTS over three live objects (Deb822, Dsc/Changes x 2), keys A / N (absent at first) / Files, values 'x\\n x' / 'x\\nx:x' / 'x\\n' plus multivalued-key assignments to throw-away objects; the reference is history-free, the code has no memo (negative controls: memo by value, by (key, value), rejected assignment leaving an empty field)",
         "construction: closed LTS over the same three objects, keys A / Files: any live paragraph may be replaced by an EMPTY paragraph of its class (no argument / parsing constructor over field-less input / cleared in place) or by Cls(M), M a mapping carrying another live paragraph's fields, optionally with a raw value under Files (plain mapping / paragraph where Files is ordinary / paragraph where Files is multivalued, i.e. unvalidated); reference: verdict = target class + values, never the carrier; constructions handing a key that is multivalued in the TARGET class are outside the domain and never generated; if a carrier class refuses the raw string (unspecified) the history ends there without a verdict",
+        "faults of caller-supplied objects (SIZE_STRESS part 5): both LTSs have FaultDump(o, k) -- o.dump(fd) with a file object of the caller that fails while field k is written (capacity-limited twins of BytesIO / StringIO / write()-only objects raising ENOSPC, EPIPE, EIO, ValueError, KeyError, RuntimeError, a private exception or returning a short count at the first / a middle / the last field; objects failing by nature at the first write: text file without text_mode, BytesIO with text_mode, closed file, file opened for reading, /dev/full, encoding='ascii' over non-ASCII text) -- and the construction LTS FaultBuild(o, q, k) -- Cls(M) with a mapping that raises at its k-th item; reference: the caller's fault comes out (the very exception instance; nothing for a short count), every paragraph is unchanged and the next dump of the object is the dump of the whole paragraph (read back after the fault); what reached the failing file object before the fault is not judged; negative control DumpMemoPartial (the entries formatted before the fault are kept and replayed) must violate HistSound",
         "sizes: payload runs up to 64 KiB, 100 / 1000 continuation lines, field names up to 1024 characters, paragraphs up to 1000 fields, the first special character at offset 4095 / 4096 / 4097 go through the CASE / LTS replay only; their expectation is the one TLC computed for the small value (size lemmas StretchInvariant / RepeatInvariant checked by TLC for one duplication step up to the bound); TLC itself scans strings of <= 40 characters (field names <= 65) in trace validation",
         "unspecified acceptance, executed but never judged: 'zone' (a lone CR followed by something that is not indentation -- a defect only if CR ends a line; rejected today), 'blank' (a whitespace-only continuation line; accepted today) and every assignment to a multivalued key of Dsc / Changes (not validated today). Whatever the code accepts must read back as one paragraph with the same keys (setting False; default setting only when no value in the paragraph has a blank continuation line)",
         "the domain excludes every character Python treats as whitespace or line boundary beyond space, tab, CR, LF (DESIGN.md D1): never generated",
@@ -2104,6 +2396,8 @@ def run(ctx):
             g = LTS(edges, H_INIT)
             if g.init not in g.out or len(g.states) != r_lts.distinct:
                 raise core.MachineryError("history LTS: %d states from EDGE lines, TLC found %d" % (len(g.states), r_lts.distinct))
+            if not {"faultdump", "assign", "scratch"} <= {e["op"] for e in g.edges}:
+                raise core.MachineryError("history LTS lacks an action: %s" % sorted({e["op"] for e in g.edges}))
             hvalues = [v for v in values if tuple(v["v"]) != (120,)] + [v for v in values if tuple(v["v"]) == (120,)]
             nwalks, wlen, wchunk = (110, 24, 20) if quick else (1200, 40, 100)
             slim_edges = [{k: e[k] for k in ("from", "op", "args", "res", "to")} for e in g.edges]
@@ -2118,7 +2412,7 @@ def run(ctx):
             gb = LTS(edges_b, H_INIT)
             if gb.init not in gb.out or len(gb.states) != r_ltsb.distinct:
                 raise core.MachineryError("construction LTS: %d states from EDGE lines, TLC found %d" % (len(gb.states), r_ltsb.distinct))
-            if not {"fresh", "rebuild", "assign", "scratch"} <= {e["op"] for e in gb.edges}:
+            if not {"fresh", "rebuild", "assign", "scratch", "faultdump", "faultbuild"} <= {e["op"] for e in gb.edges}:
                 raise core.MachineryError("construction LTS lacks an action")
             nwalks_b, wchunk_b = (90, 15) if quick else (900, 100)
             slim_b = [{k: e[k] for k in ("from", "op", "args", "res", "to")} for e in gb.edges]
@@ -2231,6 +2525,7 @@ def run(ctx):
     n_walks = n_steps = n_wbad = 0
     wops = {}
     wkinds = {}
+    wfaults = {}
     for r in walk_results:
         if r.get("crash"):
             raise core.MachineryError("history replay worker failed:\n" + r["crash"])
@@ -2241,6 +2536,8 @@ def run(ctx):
             forms[k] = forms.get(k, 0) + n
         for k, n in r["ops"].items():
             wops[k] = wops.get(k, 0) + n
+        for k, n in r.get("faults", {}).items():
+            wfaults[k] = wfaults.get(k, 0) + n
         for vcase, msg in r["violations"]:
             if n_wbad < 3:
                 ctx.violation(vcase, msg)
@@ -2248,7 +2545,8 @@ def run(ctx):
     for w in range(n_walks):
         ctx.distinct.add(("walk", w))
     ctx.evaluations += n_steps
-    ctx.extra["history_walks"] = {"walks": n_walks, "walks_per_lts": wkinds, "steps": n_steps, "steps_per_action": wops, "violations": n_wbad}
+    ctx.extra["history_walks"] = {"walks": n_walks, "walks_per_lts": wkinds, "steps": n_steps, "steps_per_action": wops, "violations": n_wbad,
+                                  "faulted_dumps_per_file_object": dict(sorted(wfaults.items()))}
     ctx.extra["file_object_kinds"] = {FORM_SRC[k]: n for k, n in sorted(forms.items())}
     phase["replay_s"] = round(time.time() - t_ph, 1)
 
